@@ -1364,6 +1364,8 @@ class Analyzer:
                 break
             if s["k"] == "assign":
                 self.assign(fn, st, s)
+                if obligations is not None and getattr(self, "stmt_probe", None) is not None:
+                    self.stmt_probe(self, fn, bb, s, st, obligations)
                 if obligations is not None and s["rv"]["k"] == "agg" and s["rv"].get("adt") in self.invariants:
                     P = self.cpath(fn, s["lhs"], st, lhs=True)
                     for inv in self.invariants[s["rv"]["adt"]]:
